@@ -105,6 +105,7 @@ class LockOp:
         self.raise_node = None
         self.dynamic = False
         self.conditional = False  # release written as `if K in L: L.remove(K)`
+        self.wait_raises = []     # raise statements inside the wait loop (a timed wait that gives up): leave WITHOUT the claim
         self.anomalies = []  # (code, message, node)
 
     @property
@@ -199,6 +200,16 @@ def match_with(with_node: ast.With, func, sync: SyncTable, resolve=None):
             for b in st.body:
                 if is_logging_stmt(b):
                     continue
+                # a timed wait that gives up:  if not C.wait(t): <logging>; raise X
+                if isinstance(b, ast.If) and not b.orelse and isinstance(b.test, ast.UnaryOp) and isinstance(b.test.op, ast.Not) \
+                        and isinstance(b.test.operand, ast.Call) and isinstance(b.test.operand.func, ast.Attribute) \
+                        and b.test.operand.func.attr == "wait" and attrs(b.test.operand.func.value) == cset:
+                    rest = [x for x in b.body if not is_logging_stmt(x)]
+                    if len(rest) == 1 and isinstance(rest[0], ast.Raise):
+                        waited = True
+                        op.wait_cond_set = cset
+                        op.wait_raises.append(rest[0])
+                        continue
                 mc = method_call(b, ("wait",))
                 if mc:
                     waited = True
@@ -207,6 +218,10 @@ def match_with(with_node: ast.With, func, sync: SyncTable, resolve=None):
                         op.anomalies.append(("wait-other-cond", f"waits on self.{_name(mc[0])} while holding self.{_name(cset)}", b))
                 else:
                     op.anomalies.append(("foreign", "statement in wait loop is neither logging nor wait()", b))
+                    op.wait_raises += [r for r in ast.walk(b) if isinstance(r, ast.Raise)]
+                    if any(isinstance(c, ast.Call) and isinstance(c.func, ast.Attribute) and c.func.attr in ("wait", "wait_for") for c in ast.walk(b)):
+                        waited = True
+                        op.wait_cond_set = cset
             if not waited or st.orelse:
                 op.anomalies.append(("no-wait", "claim loop does not wait()", st))
             continue
